@@ -20,7 +20,7 @@ View(G) == [wf |-> WFClauses(G),
 
 ND(i)  == IF i = 0 THEN NONE ELSE at.nd[i]
 NDS(s) == [k \in 1..Len(s) |-> ND(s[k])]
-Ids    == DOMAIN at.nd
+NIds    == DOMAIN at.nd
 T      == at.T
 
 Fail(c, ok) == IF ok THEN {} ELSE {c}
@@ -28,37 +28,37 @@ Fail(c, ok) == IF ok THEN {} ELSE {c}
 EventErrs(e) ==
   IF e.res # "ok" THEN {"C19." \o e.a \o ".raised"}
   ELSE CASE e.a = "children" ->
-         Fail("C19.children", \A i \in Ids : C19children(T, ND(i), NDS(e.out[i])))
+         Fail("C19.children", \A i \in NIds : C19children(T, ND(i), NDS(e.out[i])))
     [] e.a = "terminals" ->
-         Fail("C19.terminals", \A i \in Ids : C19terminals(T, ND(i), NDS(e.out[i])))
+         Fail("C19.terminals", \A i \in NIds : C19terminals(T, ND(i), NDS(e.out[i])))
     [] e.a = "preorder" ->
-         Fail("C19.preorder", \A i \in Ids : C19pre(T, ND(i), NDS(e.out[i])))
+         Fail("C19.preorder", \A i \in NIds : C19pre(T, ND(i), NDS(e.out[i])))
     [] e.a = "postorder" ->
-         Fail("C19.postorder", \A i \in Ids : C19post(T, ND(i), NDS(e.out[i])))
+         Fail("C19.postorder", \A i \in NIds : C19post(T, ND(i), NDS(e.out[i])))
     [] e.a = "siblings" ->
-         Fail("C19.right_sibling", \A i \in Ids : C19right(T, ND(i), ND(e.right[i]))) \cup
-         Fail("C19.left_sibling", \A i \in Ids : C19left(T, ND(i), ND(e.left[i]))) \cup
+         Fail("C19.right_sibling", \A i \in NIds : C19right(T, ND(i), ND(e.right[i]))) \cup
+         Fail("C19.left_sibling", \A i \in NIds : C19left(T, ND(i), ND(e.left[i]))) \cup
          Fail("C19.siblings_inverse",
-              C19inverse(T, [x \in T.nodes |-> ND(e.right[CHOOSE i \in Ids : ND(i) = x])],
-                            [x \in T.nodes |-> ND(e.left[CHOOSE i \in Ids : ND(i) = x])]))
+              C19inverse(T, [x \in T.nodes |-> ND(e.right[CHOOSE i \in NIds : ND(i) = x])],
+                            [x \in T.nodes |-> ND(e.left[CHOOSE i \in NIds : ND(i) = x])]))
     [] e.a = "dominance" ->
-         Fail("C19.dominance", \A i \in Ids : C19dominance(T, ND(i), NDS(e.out[i])))
+         Fail("C19.dominance", \A i \in NIds : C19dominance(T, ND(i), NDS(e.out[i])))
     [] e.a = "lca" ->
-         Fail("C19.lca", \A i, j \in Ids : C19lca(T, ND(i), ND(j), ND(e.out[i][j])))
+         Fail("C19.lca", \A i, j \in NIds : C19lca(T, ND(i), ND(j), ND(e.out[i][j])))
     [] e.a = "levels" ->
-         Fail("C19.levels", \A i \in Ids : ~ND(i).tok => C19level(T, ND(i), e.out[i])) \cup
+         Fail("C19.levels", \A i \in NIds : ~ND(i).tok => C19level(T, ND(i), e.out[i])) \cup
          Fail("C19.levels_groups",
-              \A i \in Ids : ~ND(i).tok =>
+              \A i \in NIds : ~ND(i).tok =>
                  \E g \in 1..Len(e.groups) :
                     e.groups[g][1] = e.out[i] /\ i \in SeqToSet(e.groups[g][2]))
     [] e.a = "numbering" ->
          Fail("C19.numbering",
-              C19numbering(T, [x \in CNodes(T) |-> e.num[CHOOSE i \in Ids : ND(i) = x]]))
+              C19numbering(T, [x \in CNodes(T) |-> e.num[CHOOSE i \in NIds : ND(i) = x]]))
     [] e.a = "gap_degree_node" ->
-         Fail("C16.node", \A i \in Ids : C16node(ND(i), e.out[i]))
+         Fail("C16.node", \A i \in NIds : C16node(ND(i), e.out[i]))
     [] e.a = "terminal_blocks" ->
          Fail("C16.blocks",
-              \A i \in Ids : C16blocks(ND(i),
+              \A i \in NIds : C16blocks(ND(i),
                   [b \in 1..Len(e.out[i]) |->
                      UNION {ND(e.out[i][b][k]).y : k \in 1..Len(e.out[i][b])}]) /\
                   \A b \in 1..Len(e.out[i]) : NDS(e.out[i][b]) =
